@@ -232,6 +232,30 @@ pub fn run(ctx: &mut Ctx) -> Report {
 				}
 			}
 		}
+		// D2c: windows that end after 2049 (GeneralizedTime) and carry a sub-second part
+		for (pos, na_y) in [("leaf", 2055), ("root", 2060), ("leaf", 2050)] {
+			if pos == "inter" && !depth2 {
+				continue;
+			}
+			let dna = Dt { ns: 250_000_000, h: 12, ..Dt::ymd(na_y, 6, 1) };
+			let tna = dna.real().unwrap().unix_timestamp();
+			for (name, t) in [("inside", ts(2030, 1, 1)), ("just-inside-end", tna - 60), ("after", tna + 60)] {
+				let mut c = b.clone();
+				c.tag = format!("time-subsecond-after-2049:{}:{}:{}", pos, na_y, name);
+				// every certificate of the chain must outlive the verification time
+				c.root.na = Dt::ymd(2070, 1, 1);
+				if let Some(i) = c.inter.as_mut() {
+					i.na = Dt::ymd(2069, 1, 1);
+				}
+				c.leaf.na = Dt::ymd(2068, 1, 1);
+				match pos {
+					"root" => c.root.na = dna,
+					_ => c.leaf.na = dna,
+				}
+				c.t = t;
+				cases.push(c);
+			}
+		}
 		// D3: name constraints
 		let constraints: Vec<(&str, Option<(Vec<Subtree>, Vec<Subtree>)>)> = vec![
 			("permit-dns", Some((vec![Subtree::Dns("example.com".into())], vec![]))),
@@ -288,7 +312,9 @@ pub fn run(ctx: &mut Ctx) -> Report {
 		}
 		// D5: CA key usage
 		use KeyUsagePurpose::*;
-		for ku in [vec![], vec![KeyCertSign], vec![KeyCertSign, CrlSign], vec![DigitalSignature], vec![CrlSign], vec![DigitalSignature, KeyCertSign], vec![DigitalSignature, KeyEncipherment]] {
+		for ku in [vec![], vec![KeyCertSign], vec![KeyCertSign, CrlSign], vec![DigitalSignature], vec![CrlSign], vec![DigitalSignature, KeyCertSign], vec![DigitalSignature, KeyEncipherment],
+			// the list is a Vec: repetitions and orderings are legal and mean the same set
+			vec![KeyCertSign, KeyCertSign], vec![KeyCertSign, CrlSign, KeyCertSign], vec![CrlSign, KeyCertSign, CrlSign, DigitalSignature, DigitalSignature], vec![DigitalSignature, DigitalSignature], vec![KeyCertSign, KeyCertSign, KeyCertSign]] {
 			let mut c = b.clone();
 			c.tag = format!("ca-key-usage:root:{:?}", ku.iter().map(ku_name).collect::<Vec<_>>());
 			c.root.ku = ku.clone();
@@ -301,7 +327,7 @@ pub fn run(ctx: &mut Ctx) -> Report {
 			}
 		}
 	}
-	s.rep.exhaustive.push("per-dimension sweeps around the valid baseline at depth 1 and 2: 5 CA-flag variants per CA position; 5 times per certificate window, and 4 times x 3 non-UTC offsets per window; 11 name-constraint shapes x 11 leaf name sets per CA position; 6 EKU sets x 2 purposes; 7 CA key-usage sets per CA position".into());
+	s.rep.exhaustive.push("per-dimension sweeps around the valid baseline at depth 1 and 2: 5 CA-flag variants per CA position; 5 times per certificate window, and 4 times x 3 non-UTC offsets per window; 11 name-constraint shapes x 11 leaf name sets per CA position; 6 EKU sets x 2 purposes; 12 CA key-usage lists (incl. repetitions) per CA position; windows ending after 2049 with sub-second parts".into());
 	// random combinations of two dimensions
 	let n = if s.ctx.thorough { 1500 } else { 60 };
 	let pool: Vec<ChainCase> = cases.clone();
